@@ -422,10 +422,12 @@ def run(ctx):
         "deviation-bounded: all schedules with <= K delays and <= E non-default peer answers; bounds completed are listed",
     ]
     states = transitions = traces = 0
-    configs = CONFIGS_THOROUGH if ctx.thorough else CONFIGS_QUICK
+    # thorough = everything the quick tier does, then the deeper configurations, each with an equal share of the remaining budget
+    configs = (CONFIGS_QUICK + CONFIGS_THOROUGH) if ctx.thorough else CONFIGS_QUICK
     allstats = []
-    for cfg, budgets in configs:
-        st = explore.explore(ctx, run_one, budgets, f"c06{cfg}", opts={"cfg": cfg})
+    for idx, (cfg, budgets) in enumerate(configs):
+        with ctx.time_slice(len(configs) - idx):
+            st = explore.explore(ctx, run_one, budgets, f"c06{cfg}", opts={"cfg": cfg})
         allstats.append({"cfg": cfg, "budgets": budgets, **st})
         traces += st["executions"]
         states += st["distinct_outcomes"]
